@@ -220,9 +220,11 @@ Proof.
     repeat match goal with
            | |- context [if ?c then _ else _] => destruct c
            | |- context [match ?x with _ => _ end] => destruct x
-           end; intros E; inversion E; subst; cbn [dk mk] in Hin; auto;
-      destruct Hin as [Hi|Hi]; [inversion Hi; subst; right; left; eauto
-                               |apply filter_In in Hi; destruct Hi; left; assumption].
+           end; intros E; inversion E; subst; cbn [dk mk] in Hin;
+      first [ left; exact Hin
+            | destruct Hin as [Hi|Hi];
+              [inversion Hi; subst; right; left; eauto
+              |apply filter_In in Hi; destruct Hi; left; assumption] ].
   - inversion Hs; subst. auto.
   - cbn [step] in Hs. destruct (resolve (gdir s) bd) as [g dir].
     destruct dir; inversion Hs; subst; cbn [dk mk] in Hin; auto.
